@@ -133,3 +133,17 @@ func (v *VerifRepl) RunRetry(hb time.Duration, dials int, watchdog time.Duration
 	}
 	return gaps, end
 }
+
+// VerifDurationFor exposes durationFor (util.go) for the timing correspondence.
+func VerifDurationFor(bandwidth, n int64) time.Duration { return durationFor(bandwidth, n) }
+
+// WriteTimeoutFor returns how far in the future replication.deadlineSize puts the write deadline of a
+// payload of the given size, for a replication with the given declared bandwidth and heartbeat timeout.
+func (v *VerifRepl) WriteTimeoutFor(size, bandwidth int64, hb time.Duration) time.Duration {
+	r := v.r
+	oldB, oldH := r.bandwidth, r.hbTimeout
+	r.bandwidth, r.hbTimeout = bandwidth, hb
+	defer func() { r.bandwidth, r.hbTimeout = oldB, oldH }()
+	start := time.Now()
+	return r.deadlineSize(size).Sub(start)
+}
